@@ -525,4 +525,103 @@ theorem follower_projects_aux {f : LFollower} (hi : SInv f.sessions) (ps : List 
       rw [← callback_other f hb']
       exact ih'
 
+/-! ### stream identifiers -/
+
+/-- identifiers of the live streams: all handed out already, pairwise distinct; `n` bounds the number of packets seen -/
+structure IdInv (f : LFollower) (n : Nat) : Prop where
+  bound : f.lastId ≤ n
+  below : ∀ e ∈ f.sessions, e.2.id < f.lastId
+  nodup : (f.sessions.map (·.2.id)).Nodup
+
+theorem key_unique {m : Sessions} (hu : (m.map (·.1)).Nodup) {x y : SInfo × TStream} (hx : x ∈ m) (hy : y ∈ m)
+    (h : x.1 = y.1) : x = y := by
+  induction m with
+  | nil => cases hx
+  | cons z r ih =>
+    rw [List.map_cons, List.nodup_cons] at hu
+    rcases List.mem_cons.mp hx with rfl | hx' <;> rcases List.mem_cons.mp hy with rfl | hy'
+    · rfl
+    · exact absurd (List.mem_map.mpr ⟨y, hy', h.symm⟩) hu.1
+    · exact absurd (List.mem_map.mpr ⟨x, hx', h⟩) hu.1
+    · exact ih hu.2 hx' hy'
+
+theorem sset_ids {m : Sessions} {k : SInfo} {t : TStream} (h : ∀ x ∈ m, x.1 = k → x.2.id = t.id) :
+    (sset m k t).map (·.2.id) = m.map (·.2.id) := by
+  induction m with
+  | nil => rfl
+  | cons x r ih =>
+    rw [sset_cons, List.map_cons, List.map_cons, ih (fun y hy => h y (List.mem_cons_of_mem _ hy))]
+    split
+    · next hx => rw [← h x List.mem_cons_self hx]
+    · rfl
+
+theorem deliver_IdInv {f : LFollower} {n : Nat} (hi : SInv f.sessions) (hid : IdInv f n) {k : SInfo}
+    {e : SInfo × TStream} (p : LPkt) (hf : sfind f.sessions k = some e) : IdInv (f.deliver e.1 e.2 p).1 n := by
+  obtain ⟨hek, hem⟩ := sfind_some hf
+  obtain ⟨_, d2, d3⟩ := deliver_eq f e.1 e.2 p
+  have hsame : ∀ x ∈ f.sessions, x.1 = e.1 → x.2.id = (e.2.update p).1.id := by
+    intro x hx hk
+    rw [key_unique hi.uniq hx hem hk, (update_info e.2 p).2]
+  refine ⟨by rw [d2]; exact hid.bound, ?_, ?_⟩
+  · intro x hx
+    rw [d2]
+    rw [d3] at hx
+    split at hx
+    · exact hid.below x (mem_serase hx).1
+    · rcases mem_sset hx with rfl | hx
+      · show (e.2.update p).1.id < _
+        rw [(update_info e.2 p).2]; exact hid.below e hem
+      · exact hid.below x hx
+  · rw [d3]
+    split
+    · exact List.Nodup.sublist (List.Sublist.map _ List.filter_sublist) hid.nodup
+    · rw [sset_ids hsame]; exact hid.nodup
+
+theorem callback_IdInv {f : LFollower} {n : Nat} (hi : SInv f.sessions) (hid : IdInv f n) (hn : n + 1 < 18446744073709551616)
+    (p : LPkt) : IdInv (f.callback p).1 (n + 1) := by
+  have mono : ∀ g : LFollower, IdInv g n → IdInv g (n + 1) := fun g h => ⟨Nat.le_succ_of_le h.bound, h.below, h.nodup⟩
+  unfold LFollower.callback
+  cases h1 : sfind f.sessions p.info with
+  | some e => exact mono _ (deliver_IdInv hi hid p h1)
+  | none =>
+    simp only
+    cases h2 : sfind f.sessions p.info.swap with
+    | some e => exact mono _ (deliver_IdInv hi hid p h2)
+    | none =>
+      simp only
+      split
+      · have hb := hid.bound
+        have hl : (f.lastId + 1) % 18446744073709551616 = f.lastId + 1 := Nat.mod_eq_of_lt (by omega)
+        refine ⟨?_, ?_, ?_⟩
+        · show (f.lastId + 1) % 18446744073709551616 ≤ n + 1
+          rw [hl]; omega
+        · intro x hx
+          show x.2.id < (f.lastId + 1) % 18446744073709551616
+          rw [hl]
+          rcases List.mem_append.mp hx with h | h
+          · have := hid.below x h; omega
+          · simp only [List.mem_singleton] at h; rw [h]; show f.lastId < _; omega
+        · show ((f.sessions ++ [(p.info.swap, TStream.ofSyn p f.lastId)]).map (·.2.id)).Nodup
+          rw [List.map_append, List.nodup_append]
+          refine ⟨hid.nodup, by simp, ?_⟩
+          intro a ha b hb'
+          simp only [List.map_cons, List.map_nil, List.mem_singleton] at hb'
+          obtain ⟨x, hx, rfl⟩ := List.mem_map.mp ha
+          have := hid.below x hx
+          rw [hb']
+          show x.2.id ≠ f.lastId
+          omega
+      · exact mono _ hid
+
+theorem after_IdInv {f : LFollower} {n : Nat} (hi : SInv f.sessions) (hid : IdInv f n) (ps : List LPkt)
+    (hn : n + ps.length < 18446744073709551616) : IdInv (f.after ps) (n + ps.length) := by
+  induction ps generalizing f n with
+  | nil => exact hid
+  | cons p ps ih =>
+    have h1 : n + 1 < 18446744073709551616 := by simp only [List.length_cons] at hn; omega
+    have := ih (callback_SInv hi p) (callback_IdInv hi hid h1 p) (by simp only [List.length_cons] at hn; omega)
+    simp only [List.length_cons]
+    rw [show n + (ps.length + 1) = n + 1 + ps.length by omega]
+    exact this
+
 end Tins.DT
